@@ -28,7 +28,31 @@ FEATS = [
 
 
 def worker(ctx, job):
+    import random
     from vf.flo import monitors
+    # a conditional aux whose condition is an update / change condition and whose entry guard opens later than the
+    # condition first holds: "when its conditions hold and it is not running, it is entered" at the first evaluation at
+    # which it can be entered -- the refused evaluations before that one must not use the update up (family and model
+    # shared with the C08 check)
+    from vf.checks import c08
+    for seed in job.get("gca", []):
+        case = c08.gated_condaux_case(random.Random(seed))
+        r = c08.gated_condaux_eval(case)
+        if r[0] == "nobuild":
+            ctx.inconclusive_case("gated conditional aux program did not build: %s" % (r[1],))
+            continue
+        if r[0] == "raised":
+            ctx.fail("gated-condaux/run-raised", "run raised %s" % r[1], {"program": case["text"]})
+            continue
+        ctx.event()
+        ctx.hit("gated_condaux_histories")
+        if r[2] and r[3] is not None:
+            ctx.hit("gated_condaux_started_after_refusals")
+        ctx.case(case["text"], nontrivial=bool(r[2]), sample=None)
+        ctx.check(r[0] == "ok", "gated-condaux/not-entered-when-its-conditions-hold-and-it-can-be",
+                  "conditional aux guarded by `%s`, entry guard opening at tick %d: %s" % (case["kind"], case["gate"] - 1, r[1]),
+                  lambda: {"program": case["text"], "case": {k: v for k, v in case.items() if k != "text"}, "result": r[1],
+                           "refused_attempts_before": r[2]})
     common.flo_worker(ctx, job, FEATS, [monitors.suspend_monitor, monitors.bracket_monitor, monitors.outline_monitor],
                       nontrivial=lambda d: d.get("cond_aux_later_or_never", 0) >= 1,
                       sem_flags=("condaux_activated", "condaux_completed", "condaux_immediate", "condaux_truncated",
@@ -36,7 +60,13 @@ def worker(ctx, job):
 
 
 def run(ctx):
-    common.flo_run(ctx, FEATS, 500, 30000, {
-        "cond_aux_activations": 50, "cond_aux_immediate": 10, "cond_aux_later_or_never": 10, "cond_aux_completions": 10,
-        "main_exited_while_suspended": 10, "later_clauses_skipped": 10, "runs_while_aux_running": 100, "resumed_same_tick": 5,
-        "nested_lower_aux_suspended": 100, "nested_running_conditional_auxes": 300})
+    from vf.flo import gen
+    n = ctx.pick(500, 30000)
+    items = [(ctx.rng.randrange(1 << 30), i % gen.nfeats(FEATS, ctx)) for i in range(n)]
+    gca = [ctx.rng.randrange(1 << 30) for _ in range(ctx.pick(160, 6000))]
+    ctx.shard([{"items": items[i::16], "gca": gca[i::16]} for i in range(16)], timeout=ctx.pick(300, 1500))
+    for k, v in {"cond_aux_activations": 50, "cond_aux_immediate": 10, "cond_aux_later_or_never": 10, "cond_aux_completions": 10,
+                 "main_exited_while_suspended": 10, "later_clauses_skipped": 10, "runs_while_aux_running": 100, "resumed_same_tick": 5,
+                 "nested_lower_aux_suspended": 100, "nested_running_conditional_auxes": 300,
+                 "gated_condaux_started_after_refusals": 30}.items():
+        ctx.floor(k, v)
